@@ -84,4 +84,29 @@ def verus_owned(unit, prop, fname):
 # Per-property claim text (level, notes).  Kani harnesses are attached through the `//# ... props=` annotations in
 # contracts/kani/*.rs (tools/kani_run.parse_annotations).
 # ---------------------------------------------------------------------------------------------------------------
-PROPS = {}
+
+TECH = 'contract-based deductive verification of the real code: Verus contracts on verbatim-extracted functions + Kani contract harnesses on the staged real crate'
+
+NA = {
+    'C02': 'postcondition of the recursive syscommand_runner over arbitrary trees: outside Verus\' subset (closure capturing &mut World passed to VecDeque::retain, Box<dyn FnMut>, generic resources); Kani cannot compile real Bevy (compiler ICE) and did not finish a 3-run tree on the stubbed crate in 20 min; no inductive contract is expressible for the non-root calls (would need modifies over a World)',
+    'C09': 'an order relation over all pairs of runs of a tree produced by the recursive runner plus Bevy\'s per-command flush: same reach problem as C02, and the oracle would be a reference interpreter of the expected order (a model: different family). The order-relevant contracts that are provable (queue FIFO, per-system metadata FIFO) are owned by C12',
+    'C11': 'Idle(world) after every tree is a postcondition of the root call of syscommand_runner: same reach problem as C02; the function-level ingredients (end clears, start consumes exactly one parked entry, cleanup_on_abort) are discharged under C03/C04/C05',
+    'C15': 'the behaviour lives in an anonymous closure built inside ReactCommands::once; no nameable function carries a contract that states it, and it is observable only by running reaction trees through the runner (C02)',
+}
+
+# property -> claim.  `pending` = not built yet (listed under not_applicable with that reason until its obligations exist).
+PROPS = {
+    'C12': dict(category='other', design_ref='DESIGN.md 5/C12',
+        text='Verus proves on the verbatim text of command_queue.rs (all lengths) that the postponed-command buffer is FIFO (push appends, remove hands over everything in order, append concatenates, pop_front = head) and, with lemma L1 (unbounded, any interleaving), that parked event metadata is a per-system FIFO given the contract of *AccessTracker::start; that contract (claims the OLDEST entry of the system, the other entries keep their ORDER) is discharged by Kani on the real start() of all four trackers for every content of parked lists of length 0..3 (quick) / 0..5 (thorough). Level other, not proof: start() is complete per list length only, and the runner replaying its buffer front-to-back is not under contract.',
+        note='assumed: Kani tier runs the real crate against the stub Bevy of /verif/env (kept honest by the 81 repo tests passing against it); debug_assert! compiled out (release semantics); Vec/VecDeque specs of vstd; core::mem::replace assume_specification; syscommand_runner (replay order of the buffer) not covered',
+        explanation='queue FIFO proved (Verus, unbounded); tracker prepare/end proved (Verus); tracker start complete per length L<=3/5 (Kani); lemma L1 lifts the start contract to per-system FIFO for unbounded histories; runner replay order not covered'),
+    'C03': dict(category='other', design_ref='DESIGN.md 5/C03',
+        text='Contracts on the four access trackers and every event reader: prepare = append, end clears (Verus, unbounded, verbatim text); start(r) claims the oldest entry parked for r and leaves the rest in order (Kani, every content of lists of length 0..3/5); each reader returns the causing event\'s own payload/target/source iff the tracker is reacting AND kind and type id are the reader\'s, and Err otherwise, incl. manual runs (Kani, loop-free, all flag/kind/type combinations, symbolic payloads); start_*/end_* in commands.rs start/stop exactly the trackers of their kind. Lemma L1 (Verus) lifts this to: for any interleaving of parked events each run of a system receives the oldest metadata parked for it. Not covered: that the runner replays postponed commands in parking order (runner-level histories; see known finding F3).',
+        note='assumed: stub Bevy (Query::get, World resources) of /verif/env; release semantics (debug_assert! off); readers instantiated at payload types u32/u16 and component types A/B; the cross-kind metadata mix-up under nested replay (F3) is a runner-level history that no function contract decides: listed in known_findings.json',
+        explanation='tracker prepare/end/getters proved by Verus; start and readers complete@shape by Kani; per-system FIFO by lemma L1; runner not covered'),
+}
+for k, v in NA.items():
+    assert k not in PROPS
+
+PENDING = {k: 'obligations for this property are not built yet (build in progress); not claimed until its check exists and passes on the unchanged tree'
+           for k in ['C01','C04','C05','C06','C07','C08','C10','C13','C14','C16','C17','C18']}
